@@ -122,10 +122,31 @@ def run(ctx):
                                                  enc_opt(lambda h: "(%s, %s)" % (X.enc_xt(h[0]), X.enc_xt(h[1]))), "eq_opt eq_xx"),
                hcases, lambda c: "%s -> %r" % (X.to_ics(c[0]).replace("\r\n", "|"), c[1]))
 
+    # ------------------------------------------------------------------ search (DESIGN 2.3): objects on which model and code
+    # disagree are probed exhaustively around every boundary second, implementation vs the independent RFC oracle
+    first_violation = {}
+    suspects = [cases[i] for i in bad1]
+    for o, calls in suspects[:40]:
+        if not X.in_grammar(o):
+            continue
+        pts = [x for c in (calls or []) for x in c[:2]]
+        vo = X.parse(o)
+        for r in X.probe_ranges(o, pts):
+            m = X.real_match(vo, o, r)
+            want = X.rfc_overlaps(o, r)
+            ctx.case(("search", okey(o), tuple(r)), nontrivial=True)
+            if not isinstance(m, str) and want is not None and m != want:
+                sig = classify(o, r) or "C16: time_range_match differs from RFC 4791 9.9"
+                if sig not in first_violation:
+                    first_violation[sig] = True
+                    ctx.violation("time_range_match=%r but RFC 4791 9.9 says %r for range %s..%s on %s" % (
+                        m, want, r[0] and X.fmt_dt(r[0]), r[1] and X.fmt_dt(r[1]), X.to_ics(o).replace("\r\n", "|")),
+                        dict(level="function", object=o, ics=X.to_ics(o), range=r, got=m, rfc=want), signature=sig)
+                break
+
     # ------------------------------------------------------------------ level 2: time_range_match, time_range_fill
     per = ctx.n(9, 24)
     mcases, fcases = [], []
-    first_violation = {}
     for idx, o in enumerate(objs):
         vo = parsed[id(o)]
         ranges = X.boundary_ranges(rng, o, per)
@@ -233,9 +254,9 @@ def report_level(ctx, objs, corpus, first_violation):
                 qranges.append((o, X.boundary_ranges(rng, o, 1)[0]))
             for qi, (o, r) in enumerate(qranges):
                 comp = o["t"]
-                variants = ["plain", "prop-true", "twice"]
+                variants = ["plain", "prop-true", "twice", "prop-false"]
                 if qi % 3 == 0:
-                    variants.append(VARIANTS[3 + (qi // 3 + b) % (len(VARIANTS) - 3)])
+                    variants.append(VARIANTS[4 + (qi // 3 + b) % (len(VARIANTS) - 4)])
                 answers = {}
                 for v in variants:
                     fs = build_filters(v, comp, r)
@@ -260,6 +281,22 @@ def report_level(ctx, objs, corpus, first_violation):
                                      comp=comp, range=r, variant=v, plain=answers["plain"], with_condition=answers[v],
                                      query_plain=X.xml_query(build_filters("plain", comp, r)), query_variant=X.xml_query(build_filters(v, comp, r))),
                                 signature=sig)
+                # monitor 1b: a condition that nothing satisfies leaves nothing
+                if answers["prop-false"] not in ([], None) and ("never",) not in first_violation:
+                    first_violation[("never",)] = True
+                    ctx.violation("calendar-query %s %s..%s with a prop-filter that no object satisfies returns %r" % (
+                        comp, r[0] and X.fmt_dt(r[0]), r[1] and X.fmt_dt(r[1]), answers["prop-false"]),
+                        dict(level="http", objects=batch, ics=[X.to_ics(x, uid="uid%d" % i) for i, x in enumerate(batch)],
+                             comp=comp, range=r, variant="prop-false", plain=[], with_condition=answers["prop-false"],
+                             query_variant=X.xml_query(build_filters("prop-false", comp, r))),
+                        signature="C16: an unsatisfiable condition does not empty the result")
+                if answers["plain"] is None and ("fails",) not in first_violation:
+                    first_violation[("fails",)] = True
+                    ctx.violation("calendar-query %s %s..%s fails instead of answering" % (comp, r[0] and X.fmt_dt(r[0]), r[1] and X.fmt_dt(r[1])),
+                                  dict(level="http", objects=batch, ics=[X.to_ics(x, uid="uid%d" % i) for i, x in enumerate(batch)],
+                                       comp=comp, range=r, variant="plain", plain=None, with_condition=None,
+                                       query_plain=X.xml_query(build_filters("plain", comp, r))),
+                                  signature="C16: a well-formed calendar-query fails")
                 # monitor 2: the answer is exactly the set the RFC 9.9 tables give (independent oracle)
                 if X.proper(r) and answers["plain"] is not None:
                     for i, x in enumerate(batch):
@@ -335,8 +372,9 @@ def freebusy_level(ctx, objs):
                 ctx.case(("fb", maxo, tuple(r), tuple(okey(x) for x in batch), tuple(f[2] for f in flags)), nontrivial=True)
                 ctx.count("freebusy:%s" % ("cap" if st != 200 else "ok"))
                 # monitor: every occurrence of every opaque event overlapping the range, with its start and end, nothing else
-                if got is not None and X.proper(r) and not seen_violation:
+                if X.proper(r) and not seen_violation:
                     want = []
+                    per_item = [0]
                     for x, f in zip(batch, flags):
                         if x["t"] != "VEVENT" or f[1] or not X.in_grammar(x):
                             continue
@@ -346,15 +384,18 @@ def freebusy_level(ctx, objs):
                                 ln = (e[1] - x["start"]) if e and e[0] == "dtend" else (e[1] if e and e[0] == "dur" and e[1] > 0 else
                                                                                         (X.DAY if (not e and x["kind"] == "DATE") else 1))
                                 want.append((D, D + ln, f[2]))
+                        per_item.append(sum(1 for w in want) - sum(per_item))
+                    if got is None and max(per_item) >= maxo:
+                        continue            # the occurrence cap: a refusal is the configured behaviour
                     if sorted(want) != got and all(X.in_grammar(x) for x in batch[:7]):
                         seen_violation = True
-                        culprit = next((x for x in batch[:7] if classify(x, r)), batch[0])
-                        ctx.violation("free-busy-query %s..%s lists %r, the opaque events' overlapping occurrences are %r" % (
-                            X.fmt_dt(r[0]), X.fmt_dt(r[1]), got[:6], sorted(want)[:6]),
+                        ctx.violation("free-busy-query %s..%s %s, the opaque events' overlapping occurrences are %r" % (
+                            X.fmt_dt(r[0]), X.fmt_dt(r[1]), ("lists %r" % (got[:6],)) if got is not None else "fails with status %s" % st,
+                            sorted(want)[:6]),
                             dict(level="http-freebusy", objects=batch, flags=[f[0] for f in flags], range=r, max_freebusy_occurrence=maxo,
                                  ics=[X.to_ics(x, uid="uid%d" % i, extra=f[0]) for i, (x, f) in enumerate(zip(batch, flags))],
                                  query=X.xml_freebusy(r), got=got, want=sorted(want)),
-                            signature=classify(culprit, r) or "C16: free-busy periods differ from the overlapping occurrences")
+                            signature="C16: free-busy periods differ from the overlapping occurrences")
 
     def enc_in(x):
         maxo, r, items = x
